@@ -49,6 +49,8 @@ case "$ID" in
     fi
     # the schedule part runs even when the content part could not decide (exit 2, e.g. a case that hangs on a
     # changed tree): a violation found by either part is a violation; otherwise "could not decide" stands
+    B=$(scripts/e1bin.sh) || exit 2   # (a long content part may have outlived the build cache's retention)
+    export VERIF_E1NATIVE=$B/e1native VERIF_REWRITES=$B/rewrites.json
     $B/e1 run $ID --tier $TIER; rc1=$?
     [ $rc -eq 1 -o $rc1 -eq 1 ] && exit 1
     [ $rc -ne 0 ] && exit $rc
